@@ -17,7 +17,7 @@ import (
 func init() {
 	evid.Tests(
 		evid.Spec{Name: "TestAnnotateEveryPair", Kind: "plain", QuickShards: 4, ThoroughShards: 12},
-		evid.Spec{Name: "TestAnnotateSubsets", Kind: "rapid", Quick: 420, Thorough: 24000, QuickShards: 6, ThoroughShards: 16},
+		evid.Spec{Name: "TestAnnotateSubsets", Kind: "rapid", Quick: 840, Thorough: 24000, QuickShards: 12, ThoroughShards: 16},
 	)
 	evid.Commands("obiannotate")
 	evid.Reg("annotate", checkAnnotate)
